@@ -46,6 +46,16 @@ func runC20(p *Prog, r *Report) {
 			"SwitchAxis":     {"Progression", "HasVerticalOrientation"},
 			"SetSideways":    {"Progression"},
 		}})
+	r.Explain = append(r.Explain, "R-TABONLY: each table-driven lookup returns only values taken from its table (or the documented default / its own argument): LookupScript, the class lookups, LookupMirrorChar, Decompose/Compose (tables or the Hangul helpers); NewLanguage's result is built only by appending canonMap entries.")
+	ruleTabOnly(p, r, tabOnlyCfg{pkg: "language", fn: "LookupScript", table: []string{"ScriptRanges"}, constants: []string{"Unknown"}})
+	ruleTabOnly(p, r, tabOnlyCfg{pkg: "unicodedata", fn: "LookupLineBreakClass", table: []string{"lineBreaks"}, constants: []string{"BreakXX"}})
+	ruleTabOnly(p, r, tabOnlyCfg{pkg: "unicodedata", fn: "LookupGraphemeBreakClass", table: []string{"graphemeBreaks"}, zero: true})
+	ruleTabOnly(p, r, tabOnlyCfg{pkg: "unicodedata", fn: "LookupWordBreakClass", table: []string{"wordBreaks"}, zero: true})
+	ruleTabOnly(p, r, tabOnlyCfg{pkg: "unicodedata", fn: "LookupType", table: []string{"categories"}, zero: true})
+	ruleTabOnly(p, r, tabOnlyCfg{pkg: "unicodedata", fn: "LookupMirrorChar", table: []string{"mirroring"}, params: true})
+	ruleTabOnly(p, r, tabOnlyCfg{pkg: "unicodedata", fn: "Decompose", table: []string{"decompose1", "decompose2"}, params: true, zero: true, viaFuncs: []fnRef{{"unicodedata", "", "decomposeHangul"}}})
+	ruleTabOnly(p, r, tabOnlyCfg{pkg: "unicodedata", fn: "Compose", table: []string{"compose"}, viaFuncs: []fnRef{{"unicodedata", "", "composeHangul"}}})
+	ruleAppendOnly(p, r, "language", "NewLanguage", "canonMap")
 	r.Assumptions = append(r.Assumptions,
 		"unicode.Is, sort.Search and the three-line bisections LookupScript/binarySearchLang are trusted to implement bisection over a sorted table",
 		"the Hangul arithmetic of Compose/Decompose is not analysed",
@@ -77,6 +87,12 @@ func controlsC20(cp *Prog, r *Report) {
 		ruleLanguages(cp, cr, le, langCfg{pkg: "tab", table: "langsBad", split: "splitBad", canon: "canonBad", idType: "ID", constPrefix: "LB", floor: 2})
 		ruleLanguages(cp, cr, le, langCfg{pkg: "tab", table: "langsGood", split: "splitGood", canon: "canonGood", idType: "ID", constPrefix: "LG", floor: 2})
 	}, "tab.canonBad", "tab.langsBad[segment 0]", "tab.langsBad/canonical", "tab.LBDe", "tab.langsBad/roundtrip/fr", "tab.LBFr2")
+	expectControl(r, "R-TABONLY", func(cr *Report) {
+		ruleTabOnly(cp, cr, tabOnlyCfg{pkg: "tab", fn: "lookupGood", table: []string{"rangesGood"}, constants: []string{"unknownS"}})
+		ruleTabOnly(cp, cr, tabOnlyCfg{pkg: "tab", fn: "lookupBad", table: []string{"rangesGood"}, constants: []string{"unknownS"}})
+		ruleAppendOnly(cp, cr, "tab", "canonGoodFn", "canonGood")
+		ruleAppendOnly(cp, cr, "tab", "canonBadFn", "canonGood")
+	}, "tab.lookupBad", "tab.canonBadFn")
 	expectControl(r, "R-BITS", func(cr *Report) {
 		ruleBits(cp, cr, bitsCfg{pkg: "tab", typ: "Dir", masks: []string{"mA", "mB", "mC"},
 			setters:     map[string][]string{"SetA": {"mA"}, "SetBBad": {"mB"}, "SetCBad": {"mA"}},
